@@ -61,6 +61,7 @@ Definition U32_MAX : N := 4294967295.
 Definition add32 (a b : N) : outcome N := if a + b <=? U32_MAX then Ok (a + b) else Panic.
 Definition mul32 (a b : N) : outcome N := if a * b <=? U32_MAX then Ok (a * b) else Panic.
 Definition div32 (a b : N) : outcome N := if b =? 0 then Panic else Ok (a / b).
+Definition sub32 (a b : N) : outcome N := if b <=? a then Ok (a - b) else Panic.
 (* checked_* : None instead *)
 Definition checked_add32 (a b : N) : option N := if a + b <=? U32_MAX then Some (a + b) else None.
 Definition checked_mul32 (a b : N) : option N := if a * b <=? U32_MAX then Some (a * b) else None.
@@ -196,7 +197,8 @@ Definition parse_volume (dev : device) (lba_start num_blocks : N) : outcome volu
   let! blk := read_block dev lba_start in
   let! b := bpb_create blk in
   let d := bpb_data b in
-  match checked_add32 lba_start (bpb_total_blocks d) with
+  let! last := sub32 (bpb_total_blocks d) 1 in
+  match checked_add32 lba_start last with
   | None => Err (FormatError NoFit)
   | Some _ =>
     let fat_start := bpb_reserved_block_count d in
